@@ -245,7 +245,8 @@ class C19(Check):
                         from ..oracles import geom as _geom
 
                         dist = float(np.linalg.norm(_geom.lla_to_ecef(got[0], got[1], got[2]) - _geom.lla_to_ecef(want[0], want[1], want[2])))
-                        if dist > 3e-3:
+                        # (an angle, so the allowance grows with the distance from the axis: 5e-7 rad is 3 m on the ground, 21 m for a sensor in GEO)
+                        if dist > 5e-7 * max(float(np.linalg.norm(_geom.lla_to_ecef(want[0], want[1], want[2]))), 6378.0):
                             viol.append({"clause": "imported-sensor-location-stale", "key": "lla",
                                          "detail": f"sensor {a} at step {k}: reports latitude/longitude/altitude {got.tolist()} but its imported state at this epoch is at {want.tolist()}"})
                             break
